@@ -1,8 +1,8 @@
 (* C20 -- property theorems only: each is closed by [exact] of a lemma proved elsewhere.
    Model: Pulse/PulseModel.v (util/PulseNode.{h,cpp}); oracles gt/pl = the virtual GetPulseTime()/Pulse(). *)
-From Coq Require Import List Arith NArith.
+From Coq Require Import List Arith NArith Lia.
 From Muscle Require Import Pulse.PulseModel Pulse.PulseInv Pulse.PulseOps Pulse.PulseSweep Pulse.PulseReach Pulse.PulseMin
-     Pulse.PulseExact Pulse.PulseRefuted.
+     Pulse.PulseExact Pulse.PulseRefuted Pulse.PulseForest Pulse.PulseFuel.
 Import ListNotations.
 
 (* the translated constant the model's clamp rests on *)
@@ -85,6 +85,23 @@ Theorem C20_reentrant_recalc_refuted :
 Proof. exact reentrant_recalc_refuted. Qed.
 Print Assumptions C20_reentrant_recalc_refuted.
 
+(* fuel adequacy: in any Good state, with fuel >= 2*B + N + 4 (B bounds a rank that grows from parent to child, e.g. the
+   depth of the forest; N bounds the ids of the nodes in use) no operation of the manager returns OutOfFuel (None),
+   for callbacks that perform no operations; C20_cop_total: the same for every user operation, in any Good state *)
+Theorem C20_step_total :
+  forall (gt : nat -> nat -> N -> N -> N * list cop) (pl : nat -> nat -> N -> N -> list cop),
+    (forall x k now prev, snd (gt x k now prev) = []) -> (forall x k now st, pl x k now st = []) ->
+    forall f s o, Good nobody (nd s) -> fits f (nd s) -> exists s', step gt pl f s o = Some s'.
+Proof. exact step_total. Qed.
+Print Assumptions C20_step_total.
+
+Theorem C20_cop_total :
+  forall G rk B N f m o,
+    Good G m -> edges rk m -> (forall y, rk y <= B) -> (forall y, alive (m y) = true -> y < N) ->
+    N + B + 2 <= f -> exists m', apply_cop f m o = Some m'.
+Proof. exact apply_cop_fuel. Qed.
+Print Assumptions C20_cop_total.
+
 (* non-vacuity: a concrete history reaches a state with a three-level tree, and its recalculation reports 5 *)
 Definition ex_gt : nat -> nat -> N -> N -> N * list cop :=
   fun x _ _ _ => (match x with 2 => 5%N | 1 => 9%N | _ => NEVER end, []).
@@ -112,9 +129,22 @@ Proof.
                 is_root (nd s) 0 = true /\ valid (nd s 0) = true /\ lr (nd s 0) = [] /\
                 agg (nd s 0) = N.min (sched (nd s 0)) (first_sched_agg (nd s) 0) /\
                 exists s', top_pulse ex_pl 50 s 0 7%N = Some s' /\ hd_error (evs s') = Some (EPulse 2 0 7%N 5%N)).
-  { vm_compute. eexists. split; [reflexivity|]. split; [reflexivity|]. split; [reflexivity|]. split; [reflexivity|].
-    split; [reflexivity|]. vm_compute. eexists. split; reflexivity. }
+  { eexists. split; [vm_compute; reflexivity|]. split; [vm_compute; reflexivity|]. split; [vm_compute; reflexivity|].
+    split; [vm_compute; reflexivity|]. split; [vm_compute; reflexivity|].
+    eexists. split; [vm_compute; reflexivity|]. vm_compute. reflexivity. }
   destruct E as (s & Hrun & Hroot & Hv & Hlr & Hagg & Hp).
   exists s. split; [exact Hrun|]. split; [exact (reach_inv ex_gt ex_pl (fun _ _ _ _ => eq_refl) 50 ex_ops s Hrun)|].
   split; [exact Hroot|]. split; [split; assumption|]. split; assumption.
+Qed.
+
+(* non-vacuity of C20_step_total's premise [fits]: the state reached above fits fuel 50 *)
+Example C20_fits_nonvacuous :
+  exists s, run ex_gt ex_pl 50 init_state ex_ops = Some s /\ fits 50 (nd s).
+Proof.
+  eexists. split; [vm_compute; reflexivity|].
+  exists (fun y => Nat.min y 2), 2, 3. split; [|split; [|split]].
+  - intros c p. destruct c as [|[|[|c]]]; vm_compute; intro H; inversion H; subst; lia.
+  - intro y. apply Nat.le_min_r.
+  - intros y H. destruct y as [|[|[|y]]]; try lia. vm_compute in H. discriminate H.
+  - lia.
 Qed.
